@@ -41,7 +41,7 @@ def leaf_axiom():
 
 def pow2_axioms():
     x = z3.Int("x!p2")
-    return [leaf_axiom(),
+    return [
         # mathematical facts about powers of two (trusted arithmetic lemma, listed in evidence)
         z3.ForAll([x], z3.Implies(z3.And(is_pow2(x), x > 1), z3.And(x % 2 == 0, is_pow2(x / 2))), patterns=[is_pow2(x)]),
         z3.ForAll([x], z3.Implies(is_pow2(x), x >= 1), patterns=[is_pow2(x)]),
@@ -126,7 +126,7 @@ def lemmas():
     # --- node lemma (sum): strong induction on span (a power of two)
     cap, node, lo, span = z3.Ints("cap!L node!L lo!L span!L")
     h = span / 2
-    out.append(("node_sum.base", lambda: (pow2_axioms() + [geometry(cap, node, lo, span), span == 1,
+    out.append(("node_sum.base", lambda: (pow2_axioms() + [leaf_axiom(), geometry(cap, node, lo, span), span == 1,
                                                            unfold_sum(arr, cap, lo, lo + 1), unfold_sum(arr, cap, lo, lo)],
                                           arr[node] == F_sum(arr, cap, lo, lo + span))))
     out.append(("node_sum.step", lambda: (pow2_axioms() + [geometry(cap, node, lo, span), span > 1,
@@ -135,7 +135,7 @@ def lemmas():
                                                            node_sum(arr, cap, 2 * node + 1, lo + h, h),    # IH
                                                            add_sum(arr, cap, lo, lo + h, lo + span)],       # proved above
                                           arr[node] == F_sum(arr, cap, lo, lo + span))))
-    out.append(("node_min.base", lambda: (pow2_axioms() + [geometry(cap, node, lo, span), span == 1,
+    out.append(("node_min.base", lambda: (pow2_axioms() + [leaf_axiom(), geometry(cap, node, lo, span), span == 1,
                                                            unfold_min(arr, cap, lo, lo + 1)],
                                           arr[node] == F_min(arr, cap, lo, lo + span))))
     out.append(("node_min.step", lambda: (pow2_axioms() + [geometry(cap, node, lo, span), span > 1,
